@@ -19,9 +19,9 @@ import (
 func init() {
 	core.Register(&core.Check{
 		ID: "C11", Level: "exploration",
-		Rule: "random source histories (all write kinds, adversarial strings, amount pool, back-dated timestamps, random feature sets) interleaved with ID-BURNING operations at the beginning, in the middle and at the end (dry runs, failed atomic bulks, writes whose COMMIT fails, reference conflicts after id allocation), so that log / transaction ids have holes and need not start at 1 -> POST /logs/export bytes -> POST /logs/import on fresh ledgers with the same features (real handlers, real Log JSON codec, real state tracker) -> committed snapshots compared field by field, export of the copy compared with the export of the source -> post-import continuation: the SAME writes are applied to the copy and to the source, the FIRST one drawn in turn from every (write kind x path) pair {create postings, create script, revert of an imported transaction, save/delete transaction metadata, save/delete account metadata, schema insert, dry-run create/revert, failing create/revert} x {controller call, HTTP v2, HTTP v1, non-atomic bulk, atomic bulk}, followed by random further writes (incl. reference conflicts and idempotent replays of imported keys): outcomes must coincide, new ids must continue the imported ones exactly as they continue the source's sequences, reduced final states must coincide -> the copy's export is imported once more (second generation) and compared. Distinct = (history shape, first-write kind, path); non-trivial = source history committed >=3 logs of >=2 types",
+		Rule:        "random source histories (all write kinds, adversarial strings, amount pool, back-dated timestamps, random feature sets) interleaved with ID-BURNING operations at the beginning, in the middle and at the end (dry runs, failed atomic bulks, writes whose COMMIT fails, reference conflicts after id allocation), so that log / transaction ids have holes and need not start at 1 -> POST /logs/export bytes -> POST /logs/import on fresh ledgers with the same features (real handlers, real Log JSON codec, real state tracker) -> committed snapshots compared field by field, export of the copy compared with the export of the source -> post-import continuation: the SAME writes are applied to the copy and to the source, the FIRST one drawn in turn from every (write kind x path) pair {create postings, create script, revert of an imported transaction, save/delete transaction metadata, save/delete account metadata, schema insert, dry-run create/revert, failing create/revert} x {controller call, HTTP v2, HTTP v1, non-atomic bulk, atomic bulk}, followed by random further writes (incl. reference conflicts and idempotent replays of imported keys): outcomes must coincide, new ids must continue the imported ones exactly as they continue the source's sequences, reduced final states must coincide -> the copy's export is imported once more (second generation) and compared. Distinct = (history shape, first-write kind, path); non-trivial = source history committed >=3 logs of >=2 types",
 		Assumptions: []string{seqAssume, "sequence semantics (nextval not rolled back, setval(max(id))) as modelled in memstore"},
-		Run:  runC11,
+		Run:         runC11,
 	})
 }
 
@@ -842,12 +842,12 @@ func runC11(r *core.Run) {
 		srcSnap := e.C.Snapshot("src")
 		holes := c11HolesOf(srcSnap)
 		for name, b := range map[string]bool{
-			"histories_with_log_id_holes":                       holes.LogFirstAbove1 || holes.LogMiddle,
-			"histories_with_first_log_id_above_1":               holes.LogFirstAbove1,
-			"histories_with_log_id_hole_in_the_middle":          holes.LogMiddle,
-			"histories_with_burnt_log_ids_after_the_last_log":   holes.LogTrailing,
-			"histories_with_transaction_id_holes":               holes.TxFirstAbove1 || holes.TxMiddle,
-			"histories_with_first_transaction_id_above_1":       holes.TxFirstAbove1,
+			"histories_with_log_id_holes":                         holes.LogFirstAbove1 || holes.LogMiddle,
+			"histories_with_first_log_id_above_1":                 holes.LogFirstAbove1,
+			"histories_with_log_id_hole_in_the_middle":            holes.LogMiddle,
+			"histories_with_burnt_log_ids_after_the_last_log":     holes.LogTrailing,
+			"histories_with_transaction_id_holes":                 holes.TxFirstAbove1 || holes.TxMiddle,
+			"histories_with_first_transaction_id_above_1":         holes.TxFirstAbove1,
 			"histories_with_burnt_transaction_ids_after_the_last": holes.TxTrailing,
 		} {
 			if b {
@@ -919,7 +919,6 @@ func runC11(r *core.Run) {
 			writes = append(writes, cont.later())
 		}
 		r.Seen("first_write_kinds", pair.Kind+" via "+pair.Path)
-		firstSig := pair.Kind + "-via-" + pair.Path
 		sawCommit, sawHit := false, false
 		type step struct {
 			Write     c11Write `json:"write"`
@@ -930,10 +929,6 @@ func runC11(r *core.Run) {
 		}
 		var trace []step
 		for i, w := range writes {
-			which := "later"
-			if i == 0 {
-				which = "first"
-			}
 			sb, db := e.C.Snapshot("src"), e.C.Snapshot("dst")
 			so, _, _ := c11Exec(e, "src", w)
 			do, dTx, dLog := c11Exec(e, "dst", w)
@@ -954,7 +949,11 @@ func runC11(r *core.Run) {
 				}
 				return m
 			}
-			where := fmt.Sprintf("%s-write:%s-via-%s:first-write=%s", which, w.Kind, w.Path, firstSig)
+			// signature: the first write with its path; a later write by kind only (path and first write are in the detail)
+			where := fmt.Sprintf("first-write:%s-via-%s", w.Kind, w.Path)
+			if i > 0 {
+				where = "later-write:" + w.Kind
+			}
 			if so != do {
 				c.Violation("C11/post-import-write-outcome-differs-from-source:"+where, vd(nil))
 				return
@@ -1020,7 +1019,7 @@ func runC11(r *core.Run) {
 					}
 				}
 			}
-			c.Violation("C11/state-after-continuation-differs-from-source:first-write="+firstSig, detail(map[string]any{"continuation": trace, "diff": diff}))
+			c.Violation("C11/state-after-continuation-differs-from-source:first-write="+pair.Kind, detail(map[string]any{"continuation": trace, "diff": diff}))
 			return
 		}
 
